@@ -473,6 +473,9 @@ class Chain:
         u = ast.unparse(test)
         if u in GUARDS:
             return GUARDS[u]
+        if isinstance(test, ast.UnaryOp) and isinstance(test.op, ast.Not):
+            g = self.guard(test.operand)
+            return None if g is None else (g[0], not g[1])
         temps = getattr(self, "temps", {})
         if temps:
             class Sub(ast.NodeTransformer):
